@@ -98,6 +98,9 @@ def generate(rng, i):
         events.append({"t": core.iso(t), "type": "nbbo", "c": c, "bid": mid * (1 - spread / 2), "ask": mid * (1 + spread / 2), "id": len(events)})
 
     recovery = rng.random() < 0.4 and phase != "own_costs" and not interest_arm and not notify_arm
+    # notify arm, two contracts: the victim's bars are stamped two seconds before the other contract's, and the pushed
+    # quote is stamped in between - newer than anything the victim's book has seen, older than the exchange's latest quote
+    older_stamp = notify_arm and two and rng.random() < 0.6
     for k, g in enumerate(grid):
         shocked = ((k > kshock) or (k == kshock and phase == "nonlatent")) and not notify_arm
         if phase == "latent":
@@ -107,7 +110,7 @@ def generate(rng, i):
         price = p * f if shocked else p
         if recovery and k > kshock:
             price = p
-        add(g, 0, price)
+        add(g - timedelta(seconds=2) if older_stamp else g, 0, price)
         if two:
             add(g, 1, 50.0)
         if phase == "latent" and k == kshock - 1:
@@ -161,7 +164,7 @@ def generate(rng, i):
         # stamped with the same timestamp as the last quote seen (a one-second feed)
         pos = [j for j, op in enumerate(script) if op["op"] == "step"][min(kshock, nsteps - 1)]
         pf_ = p * f
-        script.insert(pos, {"op": "notify_quote", "env": 0, "c": 0, "bid": pf_ * (1 - spread / 2), "ask": pf_ * (1 + spread / 2)})
+        script.insert(pos, {"op": "notify_quote", "env": 0, "c": 0, "bid": pf_ * (1 - spread / 2), "ask": pf_ * (1 + spread / 2), "older": older_stamp})
     first_steps = [dict(op) for op in script if op["op"] in ("step", "notify_quote")]
     script.append({"op": "reset", "env": 0, "fold": None, "np_seed": rng.randrange(2 ** 31)})
     replay = rng.random() < 0.3
